@@ -57,6 +57,10 @@ int sim_fd_lid(int fd) {
     return tracked(fd) ? fdt[fd].lid : 0;
 }
 
+int sim_fd_is_tracked(int fd) {
+    return tracked(fd) && fdt[fd].kind != K_NONE;
+}
+
 int sim_open_fd_count(void) {
     int n = 0;
     for (int i = 0; i < MAX_FD; i++)
